@@ -388,6 +388,14 @@ Keys4 == Range(KeySeq4)
 KeySeq5 == <<<<97>>, <<66>>, <<98>>>>
 Keys5 == Range(KeySeq5)
 QKeySeq5 == KeySeq5
+\* long keys (lookups must compare every byte): members "a"x127 and "a"x128; looked up also in upper case and with a different last byte
+RepB(c, n) == [i \in 1..n |-> c]
+KeySeq6 == <<RepB(97, 127), RepB(97, 128)>>
+Keys6 == Range(KeySeq6)
+QKeySeq6 == <<RepB(97, 127), RepB(97, 128), RepB(65, 128), RepB(97, 127) \o <<98>>, RepB(97, 129), RepB(65, 127)>>
+\* a long and an empty string value (SetValuestring shrinking / growing by more than 64 bytes)
+StrSeq4 == <<<<>>, RepB(120, 70), <<120>>>>
+Strs4 == Range(StrSeq4)
 QKeySeq1 == <<<<97>>, <<65>>>>
 QKeySeq2 == <<<<97>>, <<65>>, <<98>>>>
 QKeySeq3 == KeySeq3
@@ -404,6 +412,8 @@ FeatAll  == {"arr", "obj", "ptr", "ref", "cs", "fail", "bulk", "dup", "replace",
 FeatS == {"arr", "ptr", "replace", "null"}
 FeatK == {"obj", "cs", "replace", "null"}
 FeatKB == {"obj"}
+FeatSV == {"sethelpers", "fail", "arr"}
+KindsStr == {"str", "arr"}
 FeatRS == {"arr", "ref"}
 FeatO == {"obj", "cs", "ref", "dup", "sethelpers", "replace", "alias"}
 KindsO == {"str", "obj"}
